@@ -44,7 +44,7 @@ ASSUMPTIONS = [
     "delpot = cutoff/(ngrid-4) is undefined for 4 rows)",
     "a cutoff that is not a whole multiple of the step is not constrained by the property and is not generated",
 ]
-REQUIRED = {"r:cutoff_dr": 40, "r:nr_dr": 15, "r:nr_cutoff": 15, "rho:cutoff_dr": 15, "reject": 30, "reject:all_three": 4, "reject:step_alone": 4, "reject:nr<=0": 4, "reject:dr<=0": 4, "reject:cutoff<=0": 4, "reject:nr_not_int": 4, "reject:dr_not_number": 4, "reject:all_three_one_zero": 4, "reject:not_finite": 4, "reject:single_row": 4, "written": 60,
+REQUIRED = {"r:cutoff_dr": 40, "r:nr_dr": 15, "r:nr_cutoff": 15, "rho:cutoff_dr": 15, "reject": 30, "fine_steps": 15, "reject:all_three": 4, "reject:step_alone": 4, "reject:nr<=0": 4, "reject:dr<=0": 4, "reject:cutoff<=0": 4, "reject:nr_not_int": 4, "reject:dr_not_number": 4, "reject:all_three_one_zero": 4, "reject:not_finite": 4, "reject:single_row": 4, "written": 60,
             "r:default": 10}
 TARGETS = ["LAMMPS", "DLPOLY", "GULP", "excel", "setfl", "setfl_fs", "DL_POLY_EAM", "DL_POLY_EAM_fs",
            "excel_eam", "excel_eam_fs", "eam_adp"]
@@ -65,11 +65,18 @@ WHYS = ["all_three", "step_alone", "nr<=0", "dr<=0", "cutoff<=0", "nr_not_int", 
 
 
 @st.composite
-def _axis(draw, max_rows, why=None):
+def _axis(draw, max_rows, why=None, fine=False):
     kind = "reject" if why else draw(st.sampled_from(["cutoff_dr", "cutoff_dr", "cutoff_dr", "nr_dr", "nr_cutoff", "nr", "cutoff", "none",
                                                        "reject"]))
-    e = draw(st.integers(1, 4))
-    m = draw(st.integers(1, min(500, 5 * 10 ** (e - 1))))
+    if fine:
+        # steps with many digits or of small magnitude (1.23456789e-2, 2.5e-9): nothing may be rounded to a fixed
+        # number of decimals on the way
+        e = draw(st.sampled_from([7, 9, 10, 12]))
+        m = draw(st.one_of(st.integers(1, 10 ** 4), st.integers(10 ** 5, 10 ** 9)))
+        m = min(m, 5 * 10 ** (e - 1))
+    else:
+        e = draw(st.integers(1, 4))
+        m = draw(st.integers(1, min(500, 5 * 10 ** (e - 1))))
     step = Decimal(m).scaleb(-e)
     k = draw(st.one_of(st.integers(1, 60), st.integers(1, max_rows - 1)))
     ax = {"kind": kind, "dr": dec_str(step), "nr": k + 1, "cutoff": dec_str(step * k)}
@@ -79,8 +86,10 @@ def _axis(draw, max_rows, why=None):
 
 
 @st.composite
-def _case(draw, max_rows, why=None, targets=None):
+def _case(draw, max_rows, why=None, targets=None, fine=False):
     target = draw(st.sampled_from(targets or TARGETS))
+    if fine:
+        return {"r": draw(_axis(max_rows, None, True)), "rho": draw(_axis(max_rows, None, True)), "target": target, "fine": True}
     if why:
         # one axis carries the refused combination, the other one is valid
         on_rho = target in EAM and draw(st.booleans())
@@ -96,7 +105,8 @@ def strategy(tier):
 def strata(tier):
     # GULP and the spreadsheets walk the grid with their own row iterators (the others take nr and a step)
     return [("small", _case(600), 7), ("large", _case(20000), 3),
-            ("row_iterators", _case(600, None, ["GULP", "excel", "excel_eam", "excel_eam_fs"]), 3)] + [("reject:" + w, _case(60, w), 0.25) for w in WHYS]
+            ("row_iterators", _case(600, None, ["GULP", "excel", "excel_eam", "excel_eam_fs"]), 3),
+            ("fine_steps", _case(60, None, ["GULP", "excel", "setfl", "setfl_fs", "excel_eam", "eam_adp"], True), 2)] + [("reject:" + w, _case(60, w), 0.25) for w in WHYS]
 
 
 def budget(tier):
@@ -279,6 +289,8 @@ def check_case(case):
     if target in EAM:
         cls.append("rho:" + case["rho"]["kind"])
     rejecting = wr == "reject" or wrho == "reject"
+    if case.get("fine"):
+        cls.append("fine_steps")
     if rejecting:
         cls.append("reject")
         for axn in ("r", "rho"):
